@@ -117,6 +117,7 @@ func runComponent(rt *rapid.T) {
 	}
 	bn := fakebn.New()
 	net := memnet.New()
+	t0 := time.Now()
 	ctx, cancel := context.WithCancel(context.Background())
 	stop := make(chan struct{})
 	var mu sync.Mutex
@@ -124,9 +125,25 @@ func runComponent(rt *rapid.T) {
 	crashed := make([]bool, n)
 	midBroadcast := false
 	var wg sync.WaitGroup
+	var frameLog []string
+	sentKinds := make([]map[[2]int64]bool, n) // per member: (round, message type) it has broadcast
+	for i := range sentKinds {
+		sentKinds[i] = map[[2]int64]bool{}
+	}
 	net.OnFrame = func(fr *memnet.Frame) {
 		mu.Lock()
 		src, dst := idxOf[fr.From], idxOf[fr.To]
+		{
+			var m pbv1.QBFTConsensusMsg
+			typ, rnd := int64(-1), int64(-1)
+			if fr.Decode(&m) == nil && m.GetMsg() != nil {
+				typ, rnd = m.GetMsg().GetType(), m.GetMsg().GetRound()
+			}
+			sentKinds[src][[2]int64{rnd, typ}] = true
+			if len(frameLog) < 400 {
+				frameLog = append(frameLog, fmt.Sprintf("+%dms %d->%d type%d r%d", time.Since(t0)/time.Millisecond, src, dst, typ, rnd))
+			}
+		}
 		if k, faulty := crashAfter[src]; faulty && !crashed[src] && sent[src] >= k {
 			crashed[src] = true
 			if sent[src]%(n-1) != 0 {
@@ -163,7 +180,6 @@ func runComponent(rt *rapid.T) {
 		at   time.Duration
 		hash string
 	}
-	t0 := time.Now()
 	decided := map[int]decision{}
 	var comps []*Consensus
 	for i := 0; i < n; i++ {
@@ -263,13 +279,46 @@ func runComponent(rt *rapid.T) {
 				missing = append(missing, i)
 			}
 		}
+		// Structural signature of the recorded component-level finding: some running member decided — and
+		// thereby left, the component stops a decided instance at once — while other running members never
+		// do. What the leaver no longer sends (its own PREPARE or COMMIT if it decided before sending them,
+		// DECIDED answers to later ROUND-CHANGEs) is exactly what the others lack after a member stopped in
+		// the middle of a broadcast. A run in which no running member decides is a different failure.
+		decidedRunning := 0
+		for i := 0; i < n; i++ {
+			if _, faulty := crashAfter[i]; faulty {
+				continue
+			}
+			if _, d := snapshot[i]; d {
+				decidedRunning++
+			}
+		}
+		if decidedRunning > 0 && len(crashAfter) > 0 {
+			var lacking []string
+			for i := 0; i < n; i++ {
+				if _, d := snapshot[i]; !d {
+					continue
+				}
+				last := int64(0)
+				for k := range sentKinds[i] {
+					if k[0] > last {
+						last = k[0]
+					}
+				}
+				lacking = append(lacking, fmt.Sprintf("member %d decided (last round %d, sent PREPARE=%v COMMIT=%v there)", i, last, sentKinds[i][[2]int64{last, 2}], sentKinds[i][[2]int64{last, 3}]))
+			}
+			if vstat.IsKnown("C04", "component_decided_member_leaves", fmt.Sprintf("%s; %v; still undecided %v", desc, lacking, missing)) {
+				vstat.Case("", false, "excluded:known_finding_component_decided_member_leaves")
+				return
+			}
+		}
 		var errs []string
 		for i, e := range propErr {
 			if e != nil {
 				errs = append(errs, fmt.Sprintf("%d:%v", i, e))
 			}
 		}
-		rt.Fatalf("NO TERMINATION (component): running members %v have not decided %v after the start (n+3 rounds of the increasing timer); %s; decided so far %v; Propose errors %v", missing, bound, desc, snapshot, errs)
+		rt.Fatalf("NO TERMINATION (component): running members %v have not decided %v after the start (n+3 rounds of the increasing timer); %s; decided so far %v; Propose errors %v; frames %v", missing, bound, desc, snapshot, errs, frameLog)
 	}
 	vals := map[string]bool{}
 	var latest time.Duration
